@@ -75,7 +75,10 @@ def stepEv (s : St) (ev : Event) : St × List String :=
   let s' : St := { s with eng := ⟨eng', ea.seq⟩, rep := rep', algoC := [], algoO := [],
                           lastTick := some tick, history := s.history ++ [(ev, ask)], hypOk := hyp }
   (s', [ s!"seq {tick.seq}", "terminal " ++ fmtBool tick.terminal, "rep_step " ++ stepName res,
-         s!"rep_seq {rep'.seq}" ] ++ obsAny "" eng' ++ obsAny "rep_" rep'.state ++ [ "rep_rest_eq 1" ])
+         s!"rep_seq {rep'.seq}" ] ++ obsAny "" eng' ++ obsAny "rep_" rep'.state ++
+       [ "rep_rest_eq 1",
+         -- the property evaluated on the model's two states
+         "rep_sync " ++ fmtBool (strippedOrders "" eng' == strippedOrders "" rep'.state) ])
 
 def runAll (s : St) : List String :=
   let (ea, ticks) := runWithAudit ⟨s.init, 1⟩ s.history
@@ -148,7 +151,7 @@ def spec : Drv St where
       if isEv then
         -- replica = engine on trading / position / price; orders stripped
         ((obsAny "rep_" s'.eng.eng).filter fun l => !(l.startsWith "rep_ord")) ++
-        (if s'.hypOk then strippedOrders "rep_" s'.eng.eng else [])
+        (if s'.hypOk then strippedOrders "rep_" s'.eng.eng ++ ["rep_sync 1"] else [])
       else []
     (s', base ++ extra)
 
